@@ -22,6 +22,7 @@ var yamlStrings = []string{
 	"'", "''", "\"", "\\", "a'b", "a\"b", "a\\b", "\\n", " ", "  ", " a", "a ", " a ", "\t", "a\tb", "\ta", "\n", "a\nb", "a\n", "\na", "a\n\nb", "a\r\nb", "\r", "a\n  b", "  a\nb",
 	"\u0085", "a\u0085b", "\u2028", "\u2029", "\uFEFF", "\uFEFFa", "\u0000", "a\u0000b", "\u0001", "\u001b[0m", "\u007f", "\u00a0", "é", "日本語", "\U0001F600", "a\U0001F600b", "\u00e9\n\u00e9",
 	",]", ", }", "x{2,}", "[1,]", "a,]", "{\"a\":1,}", "---", "...", "--- a", "key: [1, 2]", "x: |\n  y", "multi\nline\ntext\n", "trailing colon:", "question? mark", "- - a", "a: - b", "<<: *a", "!!binary aGk=", "0.0", "-0", "00", "1e", "e1", "0x", "++1", "1.2.3", "1,000", "١٢٣",
+	"<<: *b\nx: 1", "- <<: x\n- y", "a:\n  <<: *base\n  k: v\n", "? q\n: r\n", "&a x\n*a\n", "!!str 1\n!!int 2", "--- a\n... b\n", "# c\n# d\n",
 	"rate: 1e+06\nburst: 5", "- 2.5e+07\n- x", "5 - 1e+06", "n: 1e+06", "a: 0x10\nb: 010", "x: true\ny: null\n", "all:\n\techo hi\n", "\tindented by a tab\nnext", "key: |\n  nested block",
 	"..", ".", "--", ".-", "-.", "....", "-.-", ".. ..", "--.", "-- -", "_", "__", "~~", "=", "==", "::", "//", "\\\\", "##",
 }
